@@ -82,7 +82,7 @@ def place_demo(src, wt):
         base = pkg[:-5] if pkg.endswith("_test") else pkg
         readme = open(os.path.join(src, "README.txt")).read() if os.path.exists(os.path.join(src, "README.txt")) else ""
         # directory: prefer an explicit hint in README ("copy into <dir>/"), else by package name
-        cands = [d for d in re.findall(r"(?:into|to|in)\s+`?(?:WORKTREE/|/tmp/seed[23456789]?-C\d+/)?([\w/.-]+?)/?`?[\s.,)]", readme) if os.path.isdir(os.path.join(wt, d))]
+        cands = [d for d in re.findall(r"(?:into|to|in)\s+`?(?:WORKTREE/|/tmp/seed\d*-C\d+/)?([\w/.-]+?)/?`?[\s.,)]", readme) if os.path.isdir(os.path.join(wt, d))]
         d = None
         for c in cands:
             if os.path.basename(c.rstrip("/")) in (base, base.replace("_", "-")) or c.endswith(base):
@@ -95,7 +95,7 @@ def place_demo(src, wt):
                     break
         if d is None:
             # e.g. "cp .../demo_test.go /tmp/seed-Cxx/cmd/mp4ff-crop/demo_test.go" or "go test ... ./cmd/mp4ff-crop"
-            for m2 in re.finditer(r"(?:/tmp/seed[23456789]?-C\d+/|\./|WORKTREE/|\s|^)((?:cmd|examples|mp4|avc|hevc|sei|aac|av1|bits)(?:/[\w.-]+)*)", readme, re.M):
+            for m2 in re.finditer(r"(?:/tmp/seed\d*-C\d+/|\./|WORKTREE/|\s|^)((?:cmd|examples|mp4|avc|hevc|sei|aac|av1|bits)(?:/[\w.-]+)*)", readme, re.M):
                 cand = m2.group(1)
                 while cand and not os.path.isdir(os.path.join(wt, cand)):
                     cand = os.path.dirname(cand)
